@@ -748,6 +748,14 @@ def h_one(a0: int, a1: int, an0: bool, an1: bool, v: int, shard=None) -> None:
         raise Violation(f"as_scalars :: returned {sc!r}")
     if not conn.calls[0][0].endswith(" ORDER BY id DESC") or conn.calls[0][1] != [v]:
         raise Violation(f"order_by :: statement {conn.calls[0]!r}")
+    # the order requested for the call wins over the method's default order; without a request the default applies
+    md = SqlMethod("SELECT id, a, b FROM t", order_by="id")
+    for req, want in ((None, " ORDER BY id"), ("a DESC, id", " ORDER BY a DESC, id"), ("id DESC", " ORDER BY id DESC")):
+        conn = StubConn(rows)
+        kw = {} if req is None else {"_order_by": req}
+        list(md.all(conn, ("a", "=", v), **kw))
+        if not conn.calls[0][0].endswith(want) or conn.calls[0][0].count("ORDER BY") != 1 or conn.calls[0][1] != [v]:
+            raise Violation(f"order_by :: method with default order 'id' called with _order_by={req!r}: statement {conn.calls[0]!r}, expected it to end with {want!r}")
 
 
 def jobs(tier: str) -> List[Job]:
